@@ -135,13 +135,18 @@ def run_history(ctx, case, reuse):
         snaps[rnd] = snap
     sa = None
     with ctx.guard("B.run.returns", SA, "dimwise-de-run-reuse-%s" % reuse):
-        sa = ref.run_driver(op, d, case["lmin"], case["lmax"], case["steps"], case["margin"], case["rebal"], case["oracle_seed"], hook=hook)
+        sa = ref.run_driver(op, d, case["lmin"], case["lmax"], case["steps"], case["margin"], case["rebal"], case["oracle_seed"], hook=hook,
+                            fault_round=case.get("fault_round"))
     if sa is not None and case.get("continue_steps"):
         # second stage on the same objects: the refinement is continued after the stop
         with ctx.guard("B.run.returns", "sparseSpACE.spatiallyAdaptiveBase:SpatiallyAdaptivBase.continue_adaptive_refinement", "dimwise-de-continue-reuse-%s" % reuse):
             sa.errorEstimator.steps = max(snaps) + case["continue_steps"] if snaps else case["continue_steps"]
+            from bounded._drivers_common import ModelFault
             with quiet():
-                sa.continue_adaptive_refinement(tol=0.0)
+                try:
+                    sa.continue_adaptive_refinement(tol=0.0)
+                except ModelFault:      # the injected estimator fault struck in this stage: the caller resumes once more
+                    sa.continue_adaptive_refinement(tol=0.0)
     del op.calculate_B_dimension_wise
     check_history_clauses(ctx, case, snaps, live, reuse)
     return op, sa, snaps, rhs
@@ -422,6 +427,11 @@ def run(ctx):
                 "margin": rng.choice([0.5, 0.9]), "rebal": rng.random() < 0.5, "oracle_seed": rng.randrange(10 ** 6),
                 "lam": rng.choice(ref.LAMBDAS), "ml": rng.random() < 0.25, "data": ref.random_data_desc(rng), "forced": k % 2 == 1,
                 "interp_forced": k % 3 == 0, "continue_steps": rng.choice([0, 1, 2])}
+        if k % 4 == 1:
+            # history with a fault at a particular point: the user's (global) error estimator fails once in evaluation round 2 or 3, after the right-hand sides of
+            # that evaluation were computed and before they are handed over for reuse; the run is resumed (missed seed C17_9)
+            case["fault_round"] = 2 + (k // 4) % 2
+            case["steps"] = max(case["steps"], 2)
         # a third is continued after the stop; the total number of refinement steps stays <= 3 (d=2) / 2 (d=3): grids grow geometrically
         if case["continue_steps"]:
             total = 3 if d == 2 else 2
